@@ -392,7 +392,90 @@ struct HStats {
     gap_fill: bool,
 }
 
+/// a history whose closes use strategies 4 / 5 is a history of GenericRecordDefinitionBuilder (its own two
+/// strategies, no offsets): same request layer, same observations, `build` as the only final observation
+fn is_generic(h: &[Req]) -> bool {
+    h.iter().any(|r| matches!(r, Req::Close(s) if *s >= 4))
+}
+
+fn run_history_generic(h: &[Req]) -> RunOut {
+    use truc::record::type_resolver::TypeInfo;
+    type GB = GenericRecordDefinitionBuilder<NativeDatumDetails>;
+    let mut b = GB::new();
+    let mut obs = Vec::new();
+    let mut oracle = Oracle::default();
+    let mut st = HStats::default();
+    let mut executed = 0;
+    let mut panicked = false;
+    for (k, r) in h.iter().enumerate() {
+        let before_cur: Vec<u64> = b.get_current_data().map(did).collect();
+        let before = b.snap();
+        let out = catch_unwind(AssertUnwindSafe(|| match r {
+            Req::Add { name, size, align, uninit, .. } => {
+                let info = TypeInfo { name: format!("S{}A{}", size, align), size: *size as usize, align: *align as usize };
+                match b.add_datum(format!("f{}", name), NativeDatumDetails::new(usize::MAX, info, *uninit)) {
+                    Ok(i) => vec![0, did(i)],
+                    Err(e) => vec![3, err_code(&e)],
+                }
+            }
+            Req::Remove(i) => match b.remove_datum(DatumId::from(*i as usize)) {
+                Ok(()) => vec![1],
+                Err(e) => vec![3, err_code(&e)],
+            },
+            Req::Close(s) => vec![2, vid(if *s % 2 == 0 { b.close_record_variant_with(gvariant::append_data) } else { b.close_record_variant_with(gvariant::append_data_reverse) })],
+            Req::LookupCur(n) => match b.get_current_datum_definition_by_name(&format!("f{}", n)) {
+                None => vec![4],
+                Some(d) => vec![5, did(d.id())],
+            },
+            Req::LookupVar(v, n) => match b.get_variant_datum_definition_by_name(RecordVariantId::from(*v as usize), &format!("f{}", n)) {
+                None => vec![4],
+                Some(d) => vec![5, did(d.id())],
+            },
+        }));
+        executed = k + 1;
+        let mut o = match out {
+            Ok(o) => o,
+            Err(_) => {
+                obs.push(vec![9]);
+                oracle.fail("C13", format!("step {}: request {} panicked (generic builder)", k, r.text()));
+                panicked = true;
+                break;
+            }
+        };
+        let resp = o.clone();
+        let cur: Vec<u64> = b.get_current_data().map(did).collect();
+        enc_ids(&cur, &mut o);
+        let snap = b.snap();
+        match r {
+            Req::Close(_) => {
+                enc_snapshot(&snap, &mut o);
+                st.variants = snap.variants.len();
+            }
+            _ => {
+                o.push(snap.defs.len() as u64);
+                o.push(snap.variants.len() as u64);
+                if (resp[0] == 3 || resp[0] == 4 || resp[0] == 5) && (before != snap || before_cur != cur) {
+                    oracle.fail("C12", format!("step {}: a rejected request or a lookup changed the observable state of the generic builder", k));
+                }
+                if resp[0] == 3 {
+                    st.errs += 1;
+                }
+            }
+        }
+        obs.push(o);
+    }
+    if !panicked {
+        let built = catch_unwind(AssertUnwindSafe(move || b.build())).is_ok();
+        obs.push(vec![built as u64]);
+        st.built = built;
+    }
+    RunOut { obs, oracle, executed, stats: st }
+}
+
 fn run_history(h: &[Req]) -> RunOut {
+    if is_generic(h) {
+        return run_history_generic(h);
+    }
     let res = SynthResolver;
     let scratch = SynthResolver;
     let mut b = NativeRecordDefinitionBuilder::new(&res);
@@ -881,7 +964,16 @@ fn main() {
         "random" => {
             let mut rng = Rng::new(seed);
             for k in 0..count {
-                histories.push(gen_history(&mut rng, k % 10 == 9));
+                let mut h = gen_history(&mut rng, k % 10 == 9);
+                if k % 12 == 5 {
+                    // the same requests against the generic builder: its own two strategies
+                    for r in h.iter_mut() {
+                        if let Req::Close(s) = r {
+                            *s = 4 + (*s % 2);
+                        }
+                    }
+                }
+                histories.push(h);
             }
         }
         "enum" => {
